@@ -200,6 +200,15 @@ def check(ctx):
     s = ctx.sites(ha, "yield from self._finished_event.wait().__await__()")
     ctx.ob("R08-a", ha, "awaiting a TaskHandle waits on its event", len(s) == 1, detail="" if s else "TaskHandle.__await__ bypasses the event", by=("Event.wait",))
     n_ops += 4
+    # the adapters used for primitives created outside a running loop go through the real operation on every path
+    for q, pat in (("EventAdapter.wait", "await self._event.wait()"), ("LockAdapter.acquire", "await self._lock.acquire()"),
+                   ("LockAdapter.__aenter__", "await self._lock.acquire()"), ("SemaphoreAdapter.acquire", "await self._semaphore.acquire()"),
+                   ("CapacityLimiterAdapter.acquire", "await self._limiter.acquire()"),
+                   ("CapacityLimiterAdapter.acquire_on_behalf_of", f"await self._limiter.acquire_on_behalf_of($B)"),
+                   ("CapacityLimiterAdapter.__aenter__", "await self._limiter.__aenter__()")):
+        g = ctx.fn(q, SYNC)
+        dominates_all_exits(ctx, "R08-a", g, pat, f"{q} reaches the checkpointing operation of the real primitive on every path")
+        n_ops += 1
     ctx.floor("R08-a", "primitive operations of the table", n_ops, 14)
 
     # ---- reduce ------------------------------------------------------------------------------------------------------
